@@ -10,6 +10,8 @@ import Mathlib.Tactic.Positivity
 import Mathlib.Algebra.Order.Field.Basic
 import Mathlib.Algebra.Order.Floor.Ring
 import Mathlib.Algebra.Order.Archimedean.Basic
+import Mathlib.Algebra.Order.Ring.Rat
+import Mathlib.Data.Rat.Floor
 
 /-!
 # C18 — laser profiles and spectra (table-independent theorems)
@@ -22,6 +24,7 @@ bin power = ∫ density) are in `Props/C18Real.lean`; the statements about the *
 namespace Cherab.Props.C18
 set_option linter.unusedSectionVars false
 set_option linter.unusedVariables false
+set_option linter.unusedSimpArgs false
 open Cherab.Laser
 
 section Field
@@ -613,5 +616,730 @@ theorem rejected_assignment_unchanged (E : Ext α) (hc : 0 < E.c) (t : Cls) (hco
     · exact h
 
 end History
+
+section Fresh
+variable {α : Type} [Field α] [LinearOrder α] [IsStrictOrderedRing α]
+
+/-! ## … and equals a freshly constructed object -/
+
+def propsUniqueB (t : Cls) : Bool :=
+  t.setters.all fun s1 => t.setters.all fun s2 => s1.prop != s2.prop || s1 == s2
+
+/-- every field is written by one setter only, once -/
+def singleWriterB (t : Cls) : Bool :=
+  t.setters.all fun s1 => t.setters.all fun s2 => s1.writes.all fun w1 => s2.writes.all fun w2 =>
+    w1.1 != w2.1 || (s1 == s2 && w1 == w2)
+
+theorem propsUnique_spec {t : Cls} (h : propsUniqueB t = true) {s1 s2 : Setter} (h1 : s1 ∈ t.setters)
+    (h2 : s2 ∈ t.setters) (hp : s1.prop = s2.prop) : s1 = s2 := by
+  have := List.all_eq_true.mp (List.all_eq_true.mp h s1 h1) s2 h2
+  simpa [hp] using this
+
+theorem singleWriter_spec {t : Cls} (h : singleWriterB t = true) {s1 s2 : Setter} {w1 w2 : String × Rhs}
+    (h1 : s1 ∈ t.setters) (h2 : s2 ∈ t.setters) (hw1 : w1 ∈ s1.writes) (hw2 : w2 ∈ s2.writes)
+    (hf : w1.1 = w2.1) : s1 = s2 ∧ w1 = w2 := by
+  have := List.all_eq_true.mp (List.all_eq_true.mp (List.all_eq_true.mp (List.all_eq_true.mp h s1 h1) s2 h2) w1 hw1) w2 hw2
+  simpa [hf] using this
+
+theorem applyWrites_mem (E : Ext α) (ws : List (String × Rhs)) (fs : String → α) (v : α) (w : String × Rhs)
+    (hw : w ∈ ws) (huniq : ∀ w1 ∈ ws, ∀ w2 ∈ ws, w1.1 = w2.1 → w1 = w2) :
+    applyWrites E ws fs v w.1 = evalRhs E w.2 v := by
+  induction ws generalizing fs with
+  | nil => simp at hw
+  | cons w0 ws ih =>
+    by_cases hin : w ∈ ws
+    · have := ih (write fs w0.1 (evalRhs E w0.2 v)) hin
+        (fun a ha b hb => huniq a (by simp [ha]) b (by simp [hb]))
+      simpa [applyWrites] using this
+    · have hw0 : w = w0 := by
+        rcases List.mem_cons.mp hw with h | h
+        · exact h
+        · exact absurd h hin
+      subst hw0
+      have hne : ∀ w' ∈ ws, w'.1 ≠ w.1 := by
+        intro w' hw' heq
+        have := huniq w' (by simp [hw']) w (by simp) heq
+        exact hin (this ▸ hw')
+      have := applyWrites_notin E ws (write fs w.1 (evalRhs E w.2 v)) v w.1 hne
+      simp only [applyWrites, List.foldl_cons] at this ⊢
+      rw [this]; simp [write]
+
+/-- ghost: the last accepted value of every property -/
+def upd (params : String → α) (p : String) (v : α) : String → α := fun q => if q = p then v else params q
+
+/-- the fields written by the setters in `C` hold what those setters compute from `params` -/
+def AgreesOn (E : Ext α) (t : Cls) (C : List String) (params : String → α) (o : Obj α) : Prop :=
+  ∀ s ∈ t.setters, s.prop ∈ C → ∀ w ∈ s.writes, o.fields w.1 = evalRhs E w.2 (params s.prop)
+
+def PosOn (t : Cls) (C : List String) (o : Obj α) : Prop :=
+  ∀ s ∈ t.setters, s.prop ∈ C → ∀ w ∈ s.writes, w.1 ∈ t.rebuildPositive → 0 < o.fields w.1
+
+theorem setWith_ok_fields (E : Ext α) (t : Cls) (s : Setter) (o : Obj α) (v : α)
+    (hgf : s.guardFirst = true) (hok : (setWith E t s o v).2 = .ok) :
+    guardOk s.guard o.fields v = true ∧ (setWith E t s o v).1.fields = applyWrites E s.writes o.fields v := by
+  unfold setWith at hok ⊢
+  simp only [hgf, Bool.true_and, Bool.not_true, Bool.false_and] at hok ⊢
+  by_cases hg : guardOk s.guard o.fields v = true
+  · simp only [hg, Bool.not_true, Bool.false_eq_true, if_false] at hok ⊢
+    exact ⟨trivial, by rw [runRefresh_fields]⟩
+  · simp [hg] at hok
+
+/-- an accepted assignment through `s` records `v` for `s.prop` and leaves every other setter's fields alone -/
+theorem setWith_agrees (E : Ext α) (t : Cls) (hu : propsUniqueB t = true) (hsw : singleWriterB t = true)
+    (s : Setter) (hs : s ∈ t.setters) (hgf : s.guardFirst = true) (o : Obj α) (v : α)
+    (hok : (setWith E t s o v).2 = .ok) (C : List String) (params : String → α) (h : AgreesOn E t C params o) :
+    AgreesOn E t (s.prop :: C) (upd params s.prop v) (setWith E t s o v).1 := by
+  obtain ⟨_, hf⟩ := setWith_ok_fields E t s o v hgf hok
+  intro s' hs' hC w' hw'
+  rw [hf]
+  by_cases hp : s'.prop = s.prop
+  · have := propsUnique_spec hu hs' hs hp
+    subst this
+    rw [applyWrites_mem E s'.writes o.fields v w' hw'
+      (fun a ha b hb hab => (singleWriter_spec hsw hs' hs' ha hb hab).2)]
+    simp [upd]
+  · have hC' : s'.prop ∈ C := by
+      rcases List.mem_cons.mp hC with h' | h'
+      · exact absurd h' hp
+      · exact h'
+    rw [applyWrites_notin E s.writes o.fields v w'.1]
+    · simp only [upd, hp, if_false]; exact h s' hs' hC' w' hw'
+    · intro w hw heq
+      have := (singleWriter_spec hsw hs hs' hw hw' heq).1
+      exact hp (this ▸ rfl)
+
+theorem setWith_posOn (E : Ext α) (hc : 0 < E.c) (t : Cls) (hu : propsUniqueB t = true) (hsw : singleWriterB t = true)
+    (s : Setter) (hs : s ∈ t.setters) (hat : atomicSetter t s = true) (o : Obj α) (v : α)
+    (hok : (setWith E t s o v).2 = .ok) (C : List String) (h : PosOn t C o) :
+    PosOn t (s.prop :: C) (setWith E t s o v).1 := by
+  have hat' := hat
+  simp only [atomicSetter, Bool.and_eq_true, List.all_eq_true, Bool.or_eq_true, Bool.not_eq_true',
+    decide_eq_false_iff_not, beq_iff_eq] at hat'
+  obtain ⟨hgf, hws⟩ := hat'
+  obtain ⟨hg, hf⟩ := setWith_ok_fields E t s o v hgf hok
+  intro s' hs' hC w' hw' hpos
+  rw [hf]
+  by_cases hin : ∃ w ∈ s.writes, w.1 = w'.1
+  · obtain ⟨w, hw, heq⟩ := hin
+    obtain ⟨hss, hww⟩ := singleWriter_spec hsw hs hs' hw hw' heq
+    subst hss; subst hww
+    rw [applyWrites_mem E s.writes o.fields v w hw (fun a ha b hb hab => (singleWriter_spec hsw hs hs ha hb hab).2)]
+    rcases hws w hw with hn | ⟨hgp, hrv⟩
+    · exact absurd hpos hn
+    · have hv : 0 < v := by
+        rw [hgp] at hg
+        simpa [guardOk] using hg
+      exact evalRhs_pos E hc w.2 v hv hrv
+  · have hne : ∀ w ∈ s.writes, w.1 ≠ w'.1 := fun w hw heq => hin ⟨w, hw, heq⟩
+    rw [applyWrites_notin E s.writes o.fields v w'.1 hne]
+    have hC' : s'.prop ∈ C := by
+      rcases List.mem_cons.mp hC with h' | h'
+      · have hss := propsUnique_spec hu hs' hs h'
+        subst hss
+        exact absurd ⟨w', hw', rfl⟩ hin
+      · exact h'
+    exact h s' hs' hC' w' hw' hpos
+
+
+
+/-! ### the constructor, checked abstractly on the table -/
+
+def writtenBy (t : Cls) (called : List String) (f : String) : Bool :=
+  t.setters.any fun s => decide (s.prop ∈ called) && s.writes.any fun w => w.1 == f
+
+/-- `self._f = arg` in a constructor stands for the setter of the property `arg` when that setter only stores its
+value in `_f` (no derived field, no positivity requirement of an inner constructor) -/
+def initArgSetter (t : Cls) (f a : String) : Bool :=
+  match findSetter t a with
+  | some s => s.writes == [(f, Rhs.value)] && !decide (f ∈ t.rebuildPositive)
+  | none => false
+
+/-- abstract run of the constructor: a direct field initialisation must not clobber a field already written by a
+setter, nor (once the function has been built) a field the rebuild reads; every `self.p = arg` passes the argument
+of the same name; at the end every setter has run (or been bypassed by an equivalent `self._f = arg`) and at least
+one of them rebuilt. -/
+def ctorCheck (t : Cls) : List CtorOp → List String → Bool → Bool
+  | [], called, built => built && t.setters.all fun s => decide (s.prop ∈ called)
+  | .init f _ _ :: rest, called, built =>
+    !writtenBy t called f && (!built || !decide (f ∈ t.rebuildReads)) && ctorCheck t rest called built
+  | .initArg f a :: rest, called, built =>
+    !writtenBy t called f && (!built || !decide (f ∈ t.rebuildReads)) &&
+      ctorCheck t rest (if initArgSetter t f a then a :: called else called) built
+  | .set p a :: rest, called, built =>
+    p == a && (match findSetter t p with
+      | some s => ctorCheck t rest (p :: called) (built || hasRebuild s)
+      | none => false)
+  | .checkRange _ _ :: rest, called, built => ctorCheck t rest called built
+  | .other _ :: rest, called, built => ctorCheck t rest called built
+  | .unknown _ :: _, _, _ => false
+
+def ctorOkB (t : Cls) : Bool := ctorCheck t t.ctor [] false
+
+/-- every field the inner constructors insist on is under the control of some setter -/
+def positiveWrittenB (t : Cls) : Bool :=
+  t.rebuildPositive.all fun f => t.setters.any fun s => s.writes.any fun w => w.1 == f
+
+structure CInv (E : Ext α) (t : Cls) (args : String → α) (called : List String) (built : Bool) (o : Obj α) : Prop where
+  agrees : AgreesOn E t called args o
+  clean : built = true → Clean t o
+  pos : PosOn t called o
+
+theorem upd_self (args : String → α) (p : String) : upd args p (args p) = args := by
+  funext q; simp only [upd]; split
+  · rename_i h; rw [h]
+  · rfl
+
+theorem write_inv (E : Ext α) (t : Cls) (args : String → α) (called : List String) (built : Bool) (o : Obj α)
+    (f : String) (x : α) (hw : writtenBy t called f = false) (hb : (!built || !decide (f ∈ t.rebuildReads)) = true)
+    (h : CInv E t args called built o) : CInv E t args called built { o with fields := write o.fields f x } := by
+  have hne : ∀ s ∈ t.setters, s.prop ∈ called → ∀ w ∈ s.writes, w.1 ≠ f := by
+    intro s hs hc w hw' heq
+    simp only [writtenBy, List.any_eq_false, Bool.and_eq_true, decide_eq_true_eq, List.any_eq_true, beq_iff_eq,
+      not_and, not_exists] at hw
+    exact hw s hs hc w hw' heq
+  constructor
+  · intro s hs hc w hw'
+    simp only [write, hne s hs hc w hw', if_false]
+    exact h.agrees s hs hc w hw'
+  · intro hbt g hg
+    have hgf : g ≠ f := by
+      intro heq; subst heq
+      simp [hbt, hg] at hb
+    simp only [write, hgf, if_false]
+    exact h.clean hbt g hg
+  · intro s hs hc w hw' hp
+    simp only [write, hne s hs hc w hw', if_false]
+    exact h.pos s hs hc w hw' hp
+
+theorem setWith_ok_clean (E : Ext α) (t : Cls) (s : Setter) (hcov : (!writesRead t s || hasRebuild s) = true)
+    (hgf : s.guardFirst = true) (o : Obj α) (v : α) (hok : (setWith E t s o v).2 = .ok) (built : Bool)
+    (hcl : built = true → Clean t o) : (built || hasRebuild s) = true → Clean t (setWith E t s o v).1 := by
+  intro hb
+  unfold setWith at hok ⊢
+  simp only [hgf, Bool.true_and, Bool.not_true, Bool.false_and] at hok ⊢
+  by_cases hg : guardOk s.guard o.fields v = true
+  · simp only [hg, Bool.not_true, Bool.false_eq_true, if_false] at hok ⊢
+    by_cases hrb : hasRebuild s = true
+    · exact runRefresh_makes_clean t s.refresh _ hok hrb
+    · have hbt : built = true := by
+        rcases Bool.or_eq_true _ _ ▸ hb with h | h
+        · exact h
+        · exact absurd h hrb
+      have hnw : writesRead t s = false := by
+        rcases Bool.or_eq_true _ _ ▸ hcov with h | h
+        · simpa using h
+        · exact absurd h hrb
+      apply runRefresh_keeps_clean
+      intro f hf
+      have hnot : ∀ w ∈ s.writes, w.1 ≠ f := by
+        intro w hw heq
+        simp only [writesRead, List.any_eq_false, decide_eq_true_eq] at hnw
+        exact hnw w hw (heq ▸ hf)
+      simp only
+      rw [applyWrites_notin E s.writes o.fields v f hnot]
+      exact hcl hbt f hf
+  · simp [hg] at hok
+
+theorem runCtorFrom_cons_ok (E : Ext α) (t : Cls) (args : String → α) (o : Obj α) (op : CtorOp) (rest : List CtorOp)
+    (hrun : (runCtorFrom E t args o (op :: rest)).2 = .ok) :
+    (ctorStep E t args o op).2 = .ok ∧
+      runCtorFrom E t args o (op :: rest) = runCtorFrom E t args (ctorStep E t args o op).1 rest := by
+  rcases hstep : ctorStep E t args o op with ⟨o', r⟩
+  cases r <;> simp_all [runCtorFrom]
+
+/-- soundness of the abstract constructor check -/
+theorem ctor_sound (E : Ext α) (hc : 0 < E.c) (t : Cls) (hcov : coveredB t = true) (hat : atomicB t = true)
+    (hu : propsUniqueB t = true) (hsw : singleWriterB t = true) (args : String → α)
+    (ops : List CtorOp) (called : List String) (built : Bool) (o : Obj α)
+    (hchk : ctorCheck t ops called built = true) (hinv : CInv E t args called built o)
+    (hrun : (runCtorFrom E t args o ops).2 = .ok) :
+    ∃ called', (∀ s ∈ t.setters, s.prop ∈ called') ∧ CInv E t args called' true (runCtorFrom E t args o ops).1 := by
+  induction ops generalizing called built o with
+  | nil =>
+    simp only [ctorCheck, Bool.and_eq_true, List.all_eq_true, decide_eq_true_eq] at hchk
+    obtain ⟨hb, hall⟩ := hchk
+    subst hb
+    exact ⟨called, hall, hinv⟩
+  | cons op rest ih =>
+    obtain ⟨hstep, heq⟩ := runCtorFrom_cons_ok E t args o op rest hrun
+    rw [heq] at hrun ⊢
+    cases op with
+    | init f m e =>
+      simp only [ctorCheck, Bool.and_eq_true, Bool.not_eq_true'] at hchk
+      obtain ⟨⟨hw, hb⟩, hrest⟩ := hchk
+      exact ih called built _ hrest (write_inv E t args called built o f _ hw (by simpa using hb) hinv) hrun
+    | initArg f a =>
+      simp only [ctorCheck, Bool.and_eq_true, Bool.not_eq_true'] at hchk
+      obtain ⟨⟨hw, hb⟩, hrest⟩ := hchk
+      have hbase := write_inv E t args called built o f (args a) hw (by simpa using hb) hinv
+      by_cases hia : initArgSetter t f a = true
+      · simp only [hia, if_true] at hrest
+        apply ih (a :: called) built _ hrest _ hrun
+        -- the bypassed setter
+        unfold initArgSetter at hia
+        cases hfs : findSetter t a with
+        | none => simp [hfs] at hia
+        | some s =>
+          simp only [hfs, Bool.and_eq_true, beq_iff_eq, Bool.not_eq_true', decide_eq_false_iff_not] at hia
+          obtain ⟨hws, hnp⟩ := hia
+          obtain ⟨hs, hsp⟩ := findSetter_mem t a s hfs
+          constructor
+          · intro s' hs' hc' w' hw'
+            by_cases hp : s'.prop = a
+            · have hss : s' = s := propsUnique_spec hu hs' hs (hp.trans hsp.symm)
+              subst hss
+              rw [hws] at hw'
+              simp only [List.mem_singleton] at hw'
+              subst hw'
+              simp [ctorStep, write, evalRhs, hp]
+            · have hc'' : s'.prop ∈ called := by
+                rcases List.mem_cons.mp hc' with h' | h'
+                · exact absurd h' hp
+                · exact h'
+              exact hbase.agrees s' hs' hc'' w' hw'
+          · exact hbase.clean
+          · intro s' hs' hc' w' hw' hpos
+            by_cases hp : s'.prop = a
+            · have hss : s' = s := propsUnique_spec hu hs' hs (hp.trans hsp.symm)
+              subst hss
+              rw [hws] at hw'
+              simp only [List.mem_singleton] at hw'
+              subst hw'
+              exact absurd hpos hnp
+            · have hc'' : s'.prop ∈ called := by
+                rcases List.mem_cons.mp hc' with h' | h'
+                · exact absurd h' hp
+                · exact h'
+              exact hbase.pos s' hs' hc'' w' hw' hpos
+      · simp only [hia, if_false] at hrest
+        exact ih called built _ hrest hbase hrun
+    | set p a =>
+      simp only [ctorCheck, Bool.and_eq_true, beq_iff_eq] at hchk
+      obtain ⟨hpa, hm⟩ := hchk
+      subst hpa
+      cases hfs : findSetter t p with
+      | none => simp [hfs] at hm
+      | some s =>
+        simp only [hfs] at hm
+        obtain ⟨hs, hsp⟩ := findSetter_mem t p s hfs
+        have hcs := List.all_eq_true.mp hcov s hs
+        have has := List.all_eq_true.mp hat s hs
+        have hgf : s.guardFirst = true := by
+          simp only [atomicSetter, Bool.and_eq_true] at has; exact has.1
+        have hstep' : (setWith E t s o (args p)).2 = .ok := by
+          simpa [ctorStep, setProp, hfs] using hstep
+        have hobj : (ctorStep E t args o (.set p p)).1 = (setWith E t s o (args p)).1 := by
+          simp [ctorStep, setProp, hfs]
+        rw [hobj] at hrun ⊢
+        apply ih (p :: called) (built || hasRebuild s) _ hm _ hrun
+        subst hsp
+        constructor
+        · have := setWith_agrees E t hu hsw s hs hgf o (args s.prop) hstep' called args hinv.agrees
+          rwa [upd_self] at this
+        · exact setWith_ok_clean E t s hcs hgf o (args s.prop) hstep' built hinv.clean
+        · exact setWith_posOn E hc t hu hsw s hs has o (args s.prop) hstep' called hinv.pos
+    | checkRange a b =>
+      simp only [ctorCheck] at hchk
+      exact ih called built _ hchk (by simpa [ctorStep] using hinv) hrun
+    | other txt =>
+      simp only [ctorCheck] at hchk
+      exact ih called built _ hchk (by simpa [ctorStep] using hinv) hrun
+    | unknown txt => simp [ctorCheck] at hchk
+
+/-- all setter-written fields hold what the setters compute from `params` -/
+def Agrees (E : Ext α) (t : Cls) (params : String → α) (o : Obj α) : Prop :=
+  ∀ s ∈ t.setters, ∀ w ∈ s.writes, o.fields w.1 = evalRhs E w.2 (params s.prop)
+
+/-- a successfully constructed object is clean, satisfies the inner constructors' requirements, and its fields are
+what the setters compute from the constructor arguments -/
+theorem ctor_establishes (E : Ext α) (hc : 0 < E.c) (t : Cls) (hcov : coveredB t = true) (hat : atomicB t = true)
+    (hu : propsUniqueB t = true) (hsw : singleWriterB t = true) (hctor : ctorOkB t = true)
+    (hpw : positiveWrittenB t = true) (args : String → α) (hrun : (runCtor E t args).2 = .ok) :
+    Clean t (runCtor E t args).1 ∧ Pos t (runCtor E t args).1 ∧ Agrees E t args (runCtor E t args).1 := by
+  have hinv0 : CInv E t args [] false (blank : Obj α) :=
+    ⟨fun s _ hc' => absurd hc' (by simp), fun h => absurd h (by simp), fun s _ hc' => absurd hc' (by simp)⟩
+  obtain ⟨called', hall, hinv⟩ := ctor_sound E hc t hcov hat hu hsw args t.ctor [] false blank hctor hinv0 hrun
+  refine ⟨hinv.clean rfl, ?_, fun s hs w hw => hinv.agrees s hs (hall s hs) w hw⟩
+  intro f hf
+  have := List.all_eq_true.mp hpw f hf
+  simp only [List.any_eq_true, beq_iff_eq] at this
+  obtain ⟨s, hs, w, hw, hwf⟩ := this
+  subst hwf
+  exact hinv.pos s hs (hall s hs) w hw hf
+
+
+
+/-! ### histories keep the ghost parameters; reported parameters; observations -/
+
+theorem agrees_iff (E : Ext α) (t : Cls) (params : String → α) (o : Obj α) :
+    Agrees E t params o ↔ AgreesOn E t (t.setters.map (·.prop)) params o := by
+  constructor
+  · intro h s hs _ w hw; exact h s hs w hw
+  · intro h s hs w hw; exact h s hs (List.mem_map.mpr ⟨s, hs, rfl⟩) w hw
+
+theorem setProp_agrees (E : Ext α) (hc : 0 < E.c) (t : Cls) (hcov : coveredB t = true) (hat : atomicB t = true)
+    (hu : propsUniqueB t = true) (hsw : singleWriterB t = true) (o : Obj α) (p : String) (v : α)
+    (hcl : Clean t o) (hp : Pos t o) (params : String → α) (ha : Agrees E t params o) :
+    ∃ params', Agrees E t params' (setProp E t o p v).1 := by
+  unfold setProp
+  split
+  · exact ⟨params, ha⟩
+  · rename_i s hs
+    obtain ⟨hmem, _⟩ := findSetter_mem t p s hs
+    have h1 := List.all_eq_true.mp hcov s hmem
+    have h2 := List.all_eq_true.mp hat s hmem
+    have hgf : s.guardFirst = true := by
+      simp only [atomicSetter, Bool.and_eq_true] at h2; exact h2.1
+    rcases (setWith_inv E hc t s h1 h2 o v hcl hp).2.2 with hok | hun
+    · refine ⟨upd params s.prop v, ?_⟩
+      have := setWith_agrees E t hu hsw s hmem hgf o v hok _ params ((agrees_iff E t params o).mp ha)
+      intro s' hs' w hw
+      exact this s' hs' (by simp [List.mem_map]; exact Or.inr ⟨s', hs', rfl⟩) w hw
+    · rw [hun]; exact ⟨params, ha⟩
+
+theorem history_agrees (E : Ext α) (hc : 0 < E.c) (t : Cls) (hcov : coveredB t = true) (hat : atomicB t = true)
+    (hu : propsUniqueB t = true) (hsw : singleWriterB t = true) (ops : List (String × α)) (o : Obj α)
+    (hcl : Clean t o) (hp : Pos t o) (params : String → α) (ha : Agrees E t params o) :
+    ∃ params', Agrees E t params' (runOps E t o ops) := by
+  induction ops generalizing o params with
+  | nil => exact ⟨params, ha⟩
+  | cons op ops ih =>
+    obtain ⟨p, v⟩ := op
+    unfold runOps
+    obtain ⟨params', ha'⟩ := setProp_agrees E hc t hcov hat hu hsw o p v hcl hp params ha
+    have := setProp_inv E hc t hcov hat o p v hcl hp
+    exact ih _ this.1 this.2 params' ha'
+
+/-- what the object reports for the parameter (= constructor argument) `a`: the field its getter `a` returns -/
+def reported (t : Cls) (o : Obj α) : String → α := fun a =>
+  match t.getters.find? fun g => g.name == a with
+  | some g => o.fields g.field
+  | none => 0
+
+/-- the getter named like a setter returns the field that setter stores the raw value in -/
+def gettersOwnB (t : Cls) : Bool :=
+  t.setters.all fun s =>
+    match s.writes, t.getters.find? fun g => g.name == s.prop with
+    | (f, .value) :: _, some g => g.field == f
+    | _, _ => false
+
+theorem reported_eq (E : Ext α) (t : Cls) (hg : gettersOwnB t = true) (params : String → α) (o : Obj α)
+    (ha : Agrees E t params o) : ∀ s ∈ t.setters, reported t o s.prop = params s.prop := by
+  intro s hs
+  have := List.all_eq_true.mp hg s hs
+  unfold reported
+  split at this
+  · rename_i f _ g hw hfind
+    have this : g.field = f := by simpa using this
+    have h2 := ha s hs (f, .value) (by rw [hw]; simp)
+    rw [hfind]
+    show o.fields g.field = params s.prop
+    rw [this, h2]; rfl
+  · cases this
+
+/-- fields of the class formula that the energy density / binned spectrum reads from the captured state -/
+def snapFields (name : String) : List String :=
+  if name = "UniformEnergyDensity" then ["_energy_density"]
+  else if name = "ConstantBivariateGaussian" then ["_pulse_energy", "_pulse_length", "_stddev_x", "_stddev_y"]
+  else if name = "TrivariateGaussian" then ["_pulse_energy", "_mean_z", "_stddev_x", "_stddev_y", "_stddev_z"]
+  else if name = "GaussianBeamAxisymmetric" then
+    ["_pulse_energy", "_pulse_length", "_laser_wavelength", "_waist_z", "_stddev_waist"]
+  else if name = "GaussianSpectrum" then ["_min_wavelength", "_max_wavelength", "_bins", "_mean", "_norm_cdf"]
+  else ["_min_wavelength", "_max_wavelength", "_bins"]
+
+/-- fields `spectrum(x)` reads live -/
+def liveFields (name : String) : List String :=
+  if name = "GaussianSpectrum" then ["_normalisation", "_mean", "_recip_stddev"]
+  else ["_min_wavelength", "_max_wavelength"]
+
+def writtenBySome (t : Cls) (f : String) : Bool := t.setters.any fun s => s.writes.any fun w => w.1 == f
+
+def cacheOutputs : List String := ["_delta_wavelength", "_wavelengths", "_power_spectral_density"]
+
+/-- the class formulas only look at fields the rebuild captures, and everything observable is setter-controlled -/
+def observedOkB (t : Cls) : Bool :=
+  (t.isSpectrum == (t.name == "GaussianSpectrum" || t.name == "ConstantSpectrum")) &&
+  ((snapFields t.name).all fun f => decide (f ∈ t.rebuildReads) && writtenBySome t f) &&
+  ((liveFields t.name).all fun f => !t.isSpectrum || writtenBySome t f) &&
+  (t.geometryReads.all fun f => writtenBySome t f) &&
+  (t.getters.all fun g =>
+    if t.isSpectrum then writtenBySome t g.field || decide (g.field ∈ cacheOutputs)
+    else writtenBySome t g.field && !decide (g.field ∈ cacheOutputs))
+
+/-- all observations of the property's `observe_at` list -/
+structure ObsEq (E : Ext α) (t : Cls) (o1 o2 : Obj α) : Prop where
+  density : t.isSpectrum = false → ∀ x y z, energyDensity E t o1 x y z = energyDensity E t o2 x y z
+  geometry : geometry E t o1 = geometry E t o2
+  getter : ∀ g, getter E t o1 g = getter E t o2 g
+  getterList : t.isSpectrum = true → ∀ g, getterList E t o1 g = getterList E t o2 g
+  evaluate : t.isSpectrum = true → ∀ x, specEvaluate E t o1 x = specEvaluate E t o2 x
+
+theorem obs_congr (E : Ext α) (t : Cls) (hobs : observedOkB t = true) (o1 o2 : Obj α)
+    (hsnap : ∀ f ∈ snapFields t.name, o1.snap f = o2.snap f)
+    (hfld : ∀ f, writtenBySome t f = true → o1.fields f = o2.fields f) : ObsEq E t o1 o2 := by
+  simp only [observedOkB, Bool.and_eq_true, List.all_eq_true, Bool.or_eq_true, decide_eq_true_eq,
+    Bool.not_eq_true', beq_iff_eq] at hobs
+  obtain ⟨⟨⟨⟨h0, h1⟩, h2⟩, h3⟩, h4⟩ := hobs
+  -- spectrum classes: the three range fields are captured
+  have hspec : t.isSpectrum = true → (t.name = "GaussianSpectrum" ∨ t.name = "ConstantSpectrum") := by
+    intro hs; rw [hs] at h0
+    have := h0.symm
+    simpa using this
+  have hprof : t.isSpectrum = false → t.name ≠ "GaussianSpectrum" ∧ t.name ≠ "ConstantSpectrum" := by
+    intro hs; rw [hs] at h0
+    have := h0.symm
+    simpa using this
+  have hrange : t.isSpectrum = true → o1.snap "_min_wavelength" = o2.snap "_min_wavelength" ∧
+      o1.snap "_max_wavelength" = o2.snap "_max_wavelength" ∧ o1.snap "_bins" = o2.snap "_bins" := by
+    intro hs
+    rcases hspec hs with hn | hn <;>
+      exact ⟨hsnap _ (by simp [snapFields, hn]), hsnap _ (by simp [snapFields, hn]), hsnap _ (by simp [snapFields, hn])⟩
+  have hbinpsd : t.isSpectrum = true → specBinPsd E t o1.snap = specBinPsd E t o2.snap := by
+    intro hs
+    obtain ⟨e1, e2, e3⟩ := hrange hs
+    unfold specBinPsd
+    rcases hspec hs with hn | hn
+    · simp only [hn, if_true]
+      rw [hsnap "_mean" (by simp [snapFields, hn]), hsnap "_norm_cdf" (by simp [snapFields, hn]), e1, e2, e3]
+    · simp only [hn]
+      rw [e1, e2]
+      simp
+  constructor
+  · intro hs x y z
+    obtain ⟨hn1, hn2⟩ := hprof hs
+    simp only [energyDensity]
+    split_ifs with n1 n2 n3 n4
+    · exact hsnap _ (by simp [snapFields, n1])
+    · rw [hsnap "_pulse_energy" (by simp [snapFields, n2]), hsnap "_pulse_length" (by simp [snapFields, n2]),
+        hsnap "_stddev_x" (by simp [snapFields, n2]), hsnap "_stddev_y" (by simp [snapFields, n2])]
+    · rw [hsnap "_pulse_energy" (by simp [snapFields, n3]), hsnap "_mean_z" (by simp [snapFields, n3]),
+        hsnap "_stddev_x" (by simp [snapFields, n3]), hsnap "_stddev_y" (by simp [snapFields, n3]),
+        hsnap "_stddev_z" (by simp [snapFields, n3])]
+    · rw [hsnap "_pulse_energy" (by simp [snapFields, n4]), hsnap "_pulse_length" (by simp [snapFields, n4]),
+        hsnap "_laser_wavelength" (by simp [snapFields, n4]), hsnap "_waist_z" (by simp [snapFields, n4]),
+        hsnap "_stddev_waist" (by simp [snapFields, n4])]
+    · rfl
+  · unfold Cherab.Laser.geometry
+    split
+    · rename_i r l hgeo
+      rw [hfld r (h3 r (by rw [hgeo]; simp)), hfld l (h3 l (by rw [hgeo]; simp))]
+    · rfl
+  · intro g
+    unfold Cherab.Laser.getter
+    cases hfind : t.getters.find? (fun g' => g'.name == g) with
+    | none => rfl
+    | some gt =>
+      have hmem := List.mem_of_find?_eq_some hfind
+      have h4g := h4 gt hmem
+      simp only [Option.bind]
+      by_cases hs : t.isSpectrum = true
+      · simp only [hs, if_true, Bool.or_eq_true, decide_eq_true_eq] at h4g
+        obtain ⟨e1, e2, e3⟩ := hrange hs
+        split_ifs with c1 c2
+        · simp only [specDelta, e1, e2, e3]
+        · rfl
+        · rcases h4g with hw | hc
+          · rw [hfld _ hw]
+          · simp only [cacheOutputs, List.mem_cons, List.not_mem_nil, or_false] at hc
+            rcases hc with hc | hc | hc
+            · exact absurd hc c1
+            · exact absurd (Or.inl hc) c2
+            · exact absurd (Or.inr hc) c2
+      · have hs' : t.isSpectrum = false := by simpa using hs
+        simp only [hs', Bool.false_eq_true, if_false, Bool.and_eq_true, Bool.not_eq_true', decide_eq_false_iff_not,
+          cacheOutputs, List.mem_cons, List.not_mem_nil, or_false, not_or] at h4g
+        obtain ⟨hw, c1, c2, c3⟩ := h4g
+        simp only [c1, c2, c3, or_self, if_false]
+        rw [hfld _ hw]
+  · intro hs g
+    obtain ⟨e1, e2, e3⟩ := hrange hs
+    unfold Cherab.Laser.getterList
+    cases hfind : t.getters.find? (fun g' => g'.name == g) with
+    | none => rfl
+    | some gt =>
+      simp only [Option.bind, specWavelengths, specPsd, e1, e2, e3, hbinpsd hs]
+  · intro hs x
+    unfold specEvaluate
+    have h2' : ∀ x ∈ liveFields t.name, writtenBySome t x = true := by
+      intro x hx
+      rcases h2 x hx with h | h
+      · rw [hs] at h; cases h
+      · exact h
+    rcases hspec hs with hn | hn
+    · simp only [hn, if_true]
+      rw [hfld _ (h2' "_normalisation" (by simp [liveFields, hn])), hfld _ (h2' "_mean" (by simp [liveFields, hn])),
+        hfld _ (h2' "_recip_stddev" (by simp [liveFields, hn]))]
+    · simp only [hn]
+      rw [hfld _ (h2' "_min_wavelength" (by simp [liveFields, hn])), hfld _ (h2' "_max_wavelength" (by simp [liveFields, hn]))]
+      simp
+
+/-- **history_eq_fresh** — the clause "after any sequence of parameter changes the energy density, geometry, binned
+spectrum and reported parameters equal those of a freshly constructed object", for every class table that passes
+the decidable checks: construct with any arguments, apply any sequence of assignments (accepted or rejected);
+construct a second object from the parameters the first one *reports*; if that construction is accepted then every
+observation of the two objects coincides. -/
+theorem history_eq_fresh (E : Ext α) (hc : 0 < E.c) (t : Cls) (hcov : coveredB t = true) (hat : atomicB t = true)
+    (hu : propsUniqueB t = true) (hsw : singleWriterB t = true) (hctor : ctorOkB t = true)
+    (hpw : positiveWrittenB t = true) (hgo : gettersOwnB t = true) (hobs : observedOkB t = true)
+    (args : String → α) (ops : List (String × α)) (hrun : (runCtor E t args).2 = .ok)
+    (hfresh : (runCtor E t (reported t (runOps E t (runCtor E t args).1 ops))).2 = .ok) :
+    ObsEq E t (runOps E t (runCtor E t args).1 ops)
+      (runCtor E t (reported t (runOps E t (runCtor E t args).1 ops))).1 := by
+  obtain ⟨hcl0, hp0, ha0⟩ := ctor_establishes E hc t hcov hat hu hsw hctor hpw args hrun
+  obtain ⟨hcl, hp⟩ := history_clean E hc t hcov hat ops _ hcl0 hp0
+  obtain ⟨params, ha⟩ := history_agrees E hc t hcov hat hu hsw ops _ hcl0 hp0 args ha0
+  set o := runOps E t (runCtor E t args).1 ops with ho
+  obtain ⟨hcl', hp', ha'⟩ := ctor_establishes E hc t hcov hat hu hsw hctor hpw (reported t o) hfresh
+  set o' := (runCtor E t (reported t o)).1 with ho'
+  have hrep := reported_eq E t hgo params o ha
+  -- fields written by setters agree
+  have hfld : ∀ f, writtenBySome t f = true → o.fields f = o'.fields f := by
+    intro f hf
+    simp only [writtenBySome, List.any_eq_true, beq_iff_eq] at hf
+    obtain ⟨s, hs, w, hw, hwf⟩ := hf
+    subst hwf
+    rw [ha s hs w hw, ha' s hs w hw, hrep s hs]
+  apply obs_congr E t hobs o o' _ hfld
+  intro f hf
+  have hobs' := hobs
+  simp only [observedOkB, Bool.and_eq_true, List.all_eq_true, decide_eq_true_eq] at hobs'
+  obtain ⟨hr, hw⟩ := hobs'.1.1.1.2 f hf
+  rw [hcl f hr, hcl' f hr]
+  exact hfld f hw
+
+end Fresh
+
+section Abstract
+
+/-! ## the same statement at the level of the generic invalidation theory (`Model/Invalidation.lean`)
+
+parameters = property names, caches = {the rebuilt energy function / binned spectrum, the geometry held by whoever
+listens to `notifier`} -/
+
+inductive Cache where
+  | rebuilt | geometry
+  deriving DecidableEq, Repr
+
+def writesGeometry (t : Cls) (s : Setter) : Bool := s.writes.any fun w => decide (w.1 ∈ t.geometryReads)
+def hasNotify (s : Setter) : Bool := s.refresh.any fun r => r == .notify
+/-- every setter that changes the radius / length used by `generate_geometry` notifies the listeners -/
+def geometryCoveredB (t : Cls) : Bool := t.setters.all fun s => !writesGeometry t s || hasNotify s
+
+def protoOf (t : Cls) : Inval.Proto String Cache where
+  deps := fun c => match c with
+    | .rebuilt => (t.setters.filter (writesRead t)).map (·.prop)
+    | .geometry => (t.setters.filter (writesGeometry t)).map (·.prop)
+  clears := fun p => match findSetter t p with
+    | none => []
+    | some s => (if hasRebuild s then [Cache.rebuilt] else []) ++ (if hasNotify s then [Cache.geometry] else [])
+
+theorem findSetter_of_mem (t : Cls) (hu : propsUniqueB t = true) (s : Setter) (hs : s ∈ t.setters) :
+    findSetter t s.prop = some s := by
+  unfold findSetter
+  cases h : t.setters.find? (fun s' => s'.prop == s.prop) with
+  | none =>
+    have := List.find?_eq_none.mp h s hs
+    simp at this
+  | some s' =>
+    have hm := List.mem_of_find?_eq_some h
+    have hp : s'.prop = s.prop := by simpa using List.find?_some h
+    rw [propsUnique_spec hu hm hs hp]
+
+/-- the table conditions are exactly `Covered` of the induced protocol -/
+theorem covered_of_table (t : Cls) (hu : propsUniqueB t = true) (hcov : coveredB t = true)
+    (hgeo : geometryCoveredB t = true) : Inval.Covered (protoOf t) := by
+  intro c p hp
+  cases c with
+  | rebuilt =>
+    simp only [protoOf, List.mem_map, List.mem_filter] at hp
+    obtain ⟨s, ⟨hs, hw⟩, rfl⟩ := hp
+    have := List.all_eq_true.mp hcov s hs
+    simp only [hw, Bool.not_true, Bool.false_or] at this
+    simp [protoOf, findSetter_of_mem t hu s hs, this]
+  | geometry =>
+    simp only [protoOf, List.mem_map, List.mem_filter] at hp
+    obtain ⟨s, ⟨hs, hw⟩, rfl⟩ := hp
+    have := List.all_eq_true.mp hgeo s hs
+    simp only [hw, Bool.not_true, Bool.false_or] at this
+    simp [protoOf, findSetter_of_mem t hu s hs, this]
+
+/-- after any interleaving of assignments and observations, an observation of either cache equals the from-scratch
+observation of the final configuration (version-counter abstraction of `history_clean`) -/
+theorem no_stale_histories (t : Cls) (hu : propsUniqueB t = true) (hcov : coveredB t = true)
+    (hgeo : geometryCoveredB t = true) (ops : List (Inval.Op String Cache)) (c : Cache) :
+    let s := Inval.run (protoOf t) Inval.init ops
+    (Inval.step (protoOf t) s (.obs c)).2 = some (((protoOf t).deps c).map s.ver) :=
+  Inval.no_stale (protoOf t) (covered_of_table t hu hcov hgeo) ops c
+
+/-- conversely, a setter that writes a field the rebuild reads but does not rebuild yields a two-step history
+(observe, assign) after which the observation is stale -/
+theorem stale_of_uncovered (t : Cls) (hu : propsUniqueB t = true) (s : Setter) (hs : s ∈ t.setters)
+    (hw : writesRead t s = true) (hn : hasRebuild s = false) :
+    let st := Inval.run (protoOf t) Inval.init [.obs Cache.rebuilt, .set s.prop]
+    (Inval.step (protoOf t) st (.obs Cache.rebuilt)).2 ≠ some (((protoOf t).deps Cache.rebuilt).map st.ver) := by
+  apply Inval.stale_witness
+  · simp only [protoOf, List.mem_map, List.mem_filter]
+    exact ⟨s, ⟨hs, hw⟩, rfl⟩
+  · simp [protoOf, findSetter_of_mem t hu s hs, hn]
+
+end Abstract
+
+section Witness
+variable {α : Type} [Field α] [LinearOrder α] [IsStrictOrderedRing α]
+
+/-! ## the converse at value level: an uncovered setter *does* leave stale state -/
+
+theorem runRefresh_no_rebuild_snap (t : Cls) (rs : List Refresh) (o : Obj α) (h : rs.any isRebuild = false) :
+    (runRefresh t o rs).1.snap = o.snap ∧ (runRefresh t o rs).2 = .ok := by
+  induction rs generalizing o with
+  | nil => exact ⟨rfl, rfl⟩
+  | cons r rs ih =>
+    simp only [List.any_cons, Bool.or_eq_false_iff] at h
+    unfold runRefresh
+    simp only [h.1, Bool.false_eq_true, if_false]
+    exact ih _ h.2
+
+/-- if a setter stores its value in a field the rebuild reads and performs no rebuild, then assigning any accepted
+value different from the current one makes the cached function disagree with the fields: the counter-example
+behind a failing `covered_*` obligation, replayed on the real class by the harness -/
+theorem uncovered_setter_goes_stale (E : Ext α) (t : Cls) (s : Setter) (hfs : findSetter t s.prop = some s)
+    (hgf : s.guardFirst = true) (hn : hasRebuild s = false) (f : String) (hw : s.writes = [(f, Rhs.value)])
+    (hf : f ∈ t.rebuildReads) (o : Obj α) (hcl : Clean t o) (v : α) (hg : guardOk s.guard o.fields v = true)
+    (hv : v ≠ o.fields f) :
+    (setProp E t o s.prop v).2 = .ok ∧ ¬ Clean t (setProp E t o s.prop v).1 := by
+  unfold setProp
+  simp only [hfs, setWith, hgf, hg, Bool.not_true, Bool.and_false, Bool.false_eq_true, if_false, Bool.not_true,
+    Bool.false_and]
+  obtain ⟨hsnap, hok⟩ := runRefresh_no_rebuild_snap t s.refresh
+    ({ o with fields := applyWrites E s.writes o.fields v } : Obj α) hn
+  refine ⟨hok, ?_⟩
+  intro hcl'
+  have h1 := hcl' f hf
+  rw [hsnap, runRefresh_fields] at h1
+  simp only [hw, applyWrites, List.foldl_cons, List.foldl_nil, write, if_true, evalRhs] at h1
+  exact hv (h1.symm.trans (hcl f hf))
+
+end Witness
+
+/-! ## non-vacuity: concrete instances over ℚ -/
+section Examples
+
+def qExt : Ext ℚ := { c := 299792458, pi := 3, sqrt := fun x => x, exp := fun _ => 1, erf := fun x => x,
+                      floorDiv := fun a b => ⌊a / b⌋, toNat := fun x => ⌊x⌋.toNat }
+
+-- L = 5, r = 1: two segments of height 5/2 ; L = 1 < 2r: a single segment of height 1
+example : (generateSegmentedCylinder qExt 1 5).map (·.map fun s => (s.z0, s.height, s.radius))
+    = some [(0, 5/2, 1), (5/2, 5/2, 1)] := by decide +kernel
+example : (generateSegmentedCylinder qExt 1 1).map (·.map fun s => (s.z0, s.height, s.radius))
+    = some [(0, 1, 1)] := by decide +kernel
+-- constant spectrum on [1,3] with 4 bins: psd 1/2 in every bin, total power 1
+example : psdList (trapezoidPsd (constEval (1 : ℚ) 3)) 1 3 4 = [1/2, 1/2, 1/2, 1/2] := by decide +kernel
+example : sumList (powerList (trapezoidPsd (constEval (1 : ℚ) 3)) 1 3 4) = 1 := by decide +kernel
+-- telescoping with erf := id, mean 2, k = 1: ½((3−2) − (1−2)) = 1
+example : sumList (powerList (gaussBinPsd (fun x : ℚ => x) 2 1 (delta 1 3 4)) 1 3 4) = 1 := by decide +kernel
+example : bins (1 : ℚ) 3 4 = [(1, 3/2), (3/2, 2), (2, 5/2), (5/2, 3)] := by decide +kernel
+example : wavelengths (1 : ℚ) 3 4 = [5/4, 7/4, 9/4, 11/4] := by decide +kernel
+
+end Examples
 
 end Cherab.Props.C18
